@@ -460,6 +460,14 @@ static void sc_convert(const OCase &c, Run &r) {
   }
   pixman_region16_t out;
   pixman_region_init(&out);
+  if (c.b & 1) {
+    // the result object is reused: it already owns a multi-rectangle block that the conversion must replace (or keep)
+    save = vf_fail_at;
+    vf_fail_at = -1;
+    pixman_region_fini(&out);
+    pixman_region_init_rects(&out, bx.data(), 5);
+    vf_fail_at = save;
+  }
   pixman_bool_t ok2 = pixman_compute_composite_region(&out, src, nullptr, dst, 0, 0, 0, 0, 0, 0, 100, 150);
   if (ok && ok2) {
     if (!pixman_region_equal(&out, &reg)) r.fail("16 -> 32 -> 16 bit conversion through clip/compute_composite_region changed the region");
